@@ -80,6 +80,12 @@ type T struct {
 	F float64        `json:"f,omitempty,string"`
 }
 
+// FB keeps unknown members in a fallback map (state that is tempting to cache per type).
+type FB struct {
+	A    int            `json:"a"`
+	Rest map[string]int `json:",embed"`
+}
+
 type W1 struct {
 	Name string `json:"name"`
 	Int  int    `json:",string"`
@@ -700,6 +706,26 @@ func buildCatalogue() {
 		add(fmt.Sprintf("sharedopts/unmarshal-prefix-%d", k), "Unmarshal-sharedopts", false, false, func(keep func(string, func() []byte)) result {
 			var v struct{ Name int }
 			err := json.Unmarshal([]byte(`{"name":1,"NAME":2,"other":3}`), &v, sharedUOpts[:k]...)
+			return result{dump(v), errClass(err)}
+		})
+	}
+	// the same struct type with a fallback map decoded from different inputs (concurrently in the concurrent histories)
+	for i := 0; i < 12; i++ {
+		i := i
+		add(fmt.Sprintf("fallback/unknown-members-%d", i), "Unmarshal-fallback", false, false, func(keep func(string, func() []byte)) result {
+			var sb strings.Builder
+			fmt.Fprintf(&sb, `{"a":%d`, i)
+			for k := 0; k < 30; k++ {
+				fmt.Fprintf(&sb, `,"k%02d":%d`, k, i*100+k)
+			}
+			sb.WriteString("}")
+			var v FB
+			var err error
+			if i%2 == 0 {
+				err = json.Unmarshal([]byte(sb.String()), &v)
+			} else {
+				err = json.UnmarshalRead(opaqueReader{strings.NewReader(sb.String())}, &v)
+			}
 			return result{dump(v), errClass(err)}
 		})
 	}
